@@ -66,7 +66,7 @@ H={
 'C17-10':'missed at first (the sandbox runs in UTC). Unit process-local-zone sets time.Local to +08:00, -03:30 and Europe/Berlin around the time stamp oracle',
 'C18-9':'missed at first (every element was filled once). In a quarter of the cases the list element holds longer content first (optionally ending like a classmark)',
 'C18-10':'missed at first. appendProbe on the decoded list and on the three decoders\' results',
-'C19-9':'missed at first (every item made one call per parameter tuple). Cipher and MAC items repeat the call with the same parameters straight away',
+'C19-9':'missed at first (every item made one call per parameter tuple). Cipher and MAC items repeat the call with the same parameters straight away; long storms (32 goroutines x 200 light items per keyed kind; thorough 2 000) raise the number of overlapping initialisations — with them it is detected at VERIF_SEED 1-4, with 50 items in one run of four',
 'C19-10':'missed at first (log output was io.Discard). The rounds install a log sink that is not safe for concurrent use through the logger\'s own SetOutput',
 'C20-10':'missed at first (ranges narrower than 2^32). Widths 2^32-1 .. 2^40+3 with all operations inside a window of ten identifiers, also on the 386 run',
 }
